@@ -2,6 +2,7 @@ package shimsim
 
 import (
 	"bytes"
+	"crypto/rand"
 	"fmt"
 	"io"
 	"log"
@@ -591,4 +592,86 @@ func (s *Sim) GScript() string {
 		items = append(items, core.GPair(core.GNat(i), core.GApp("mkFault", core.GBool(f.Exec), f.Kind.Gallina())))
 	}
 	return core.GList(items)
+}
+
+// ProbeSigners uses every signer object Signers() returns: the signature verifies under the signer's own public key,
+// and for an RSA key it is made with the algorithm that was asked for.  A locked or closed shim hands out nothing.
+func (s *Sim) ProbeSigners() {
+	var sg []ssh.Signer
+	var err error
+	if p, msg := core.Guard(func() { sg, err = s.Shim.Signers() }); p {
+		s.Bad = append(s.Bad, "panic in Signers after the history: "+strings.SplitN(msg, "\n", 2)[0])
+		return
+	}
+	if err != nil {
+		return
+	}
+	inMem := map[string]bool{}
+	obs := s.Observe()
+	for _, id := range obs.Mem {
+		if c := s.Cert(id); c != nil {
+			inMem[string(c.Cert.Marshal())] = true
+		}
+	}
+	for i, k := range sg {
+		data := []byte(fmt.Sprintf("signer probe %d", i))
+		pub := k.PublicKey()
+		algos := []string{""}
+		base := pub.Type()
+		if parsed, perr := ssh.ParsePublicKey(pub.Marshal()); perr == nil {
+			if c, ok := parsed.(*ssh.Certificate); ok {
+				base = c.Key.Type()
+			}
+		}
+		if _, ok := k.(ssh.AlgorithmSigner); ok {
+			if base == ssh.KeyAlgoRSA {
+				algos = append(algos, ssh.KeyAlgoRSASHA256, ssh.KeyAlgoRSASHA512, ssh.KeyAlgoRSA)
+			} else {
+				algos = append(algos, base)
+			}
+		}
+		for _, alg := range algos {
+			var sig *ssh.Signature
+			var serr error
+			if p, msg := core.Guard(func() {
+				if alg == "" {
+					sig, serr = k.Sign(rand.Reader, data)
+				} else {
+					sig, serr = k.(ssh.AlgorithmSigner).SignWithAlgorithm(rand.Reader, data, alg)
+				}
+			}); p {
+				s.Bad = append(s.Bad, fmt.Sprintf("a signer from Signers() panicked (algorithm %q): %s", alg, strings.SplitN(msg, "\n", 2)[0]))
+				return
+			}
+			switch {
+			case serr != nil:
+				// a hardware certificate stays listed while the agent reports an empty list (C07), and a certificate the
+				// agent holds may have lost its plain key: a signer can only sign when the agent holds the identity the
+				// shim signs with - the certificate's key for a hardware certificate, the identity itself otherwise
+				need := pub.Marshal()
+				if parsed, perr := ssh.ParsePublicKey(pub.Marshal()); perr == nil {
+					if c, ok := parsed.(*ssh.Certificate); ok && inMem[string(pub.Marshal())] {
+						need = c.Key.Marshal()
+					}
+				}
+				blobs, locked, _ := s.Agent.State()
+				held := false
+				for _, b := range blobs {
+					held = held || bytes.Equal(b, need)
+				}
+				if locked || !held {
+					continue
+				}
+				s.Bad = append(s.Bad, fmt.Sprintf("a signer Signers() had just handed out (%s) cannot sign (algorithm %q) although the underlying agent holds its key: %v", pub.Type(), alg, serr))
+				return
+			case sig == nil || pub.Verify(data, sig) != nil:
+				s.Bad = append(s.Bad, fmt.Sprintf("the signature of a signer from Signers() (%s, algorithm %q) does not verify under the signer's public key", pub.Type(), alg))
+				return
+			case alg != "" && base == ssh.KeyAlgoRSA && sig.Format != alg:
+				s.Bad = append(s.Bad, fmt.Sprintf("a signer from Signers() was asked for %s and signed with %s", alg, sig.Format))
+				return
+			}
+			s.Checks++
+		}
+	}
 }
